@@ -3,7 +3,7 @@
 Monitors (all are refutation events of the property itself):
   * ASan / UBSan(bounds, pointer-overflow, null) report while a parser runs on a
     message held in an exact-size heap block           -> key asan:<entry>:<kind>-<READ|WRITE>[:<innermost /repo function>]
-  * per-case CPU-time alarm (ITIMER_VIRTUAL, 5 s)        -> key hang:<calling mode>
+  * per-case CPU-time alarm (ITIMER_VIRTUAL, 1 s)        -> key hang:<calling mode>
   * on a successful return, an out-parameter (pointer / offset / length) that is
     not inside the span the function was given          -> key span:<function>:<out-param>
 UBSan kinds that cannot leave the object (alignment, shift, signed overflow)
@@ -51,7 +51,7 @@ EXPECTED = ("no sanitizer report, no CPU-time alarm, and after a successful retu
 # run without in-process symbolisation (a sanitizer abort per hostile packet is
 # common on this tree); frames are symbolised here, once per distinct pc.
 ENV = {"ASAN_OPTIONS": common.SAN_ENV["ASAN_OPTIONS"].replace("symbolize=1", "symbolize=0") +
-       ":halt_on_error=0:suppress_equal_pcs=0:print_legend=0",
+       ":halt_on_error=0:suppress_equal_pcs=0:print_legend=0:malloc_context_size=2",
        "UBSAN_OPTIONS": common.SAN_ENV["UBSAN_OPTIONS"] + ":symbolize=0"}
 
 
@@ -72,24 +72,43 @@ _RAW_FRAME = re.compile(r"^\s*#(\d+) (0x[0-9a-f]+)\s+(?:in (\S+) (\S+)|\((\S+?)\
 _sym_cache = {}
 
 
+_symproc = None
+
+
+def _sym_query(obj, off):
+    """One address through a persistent llvm-symbolizer (debug info is loaded once per worker)."""
+    global _symproc
+    for _attempt in (0, 1):
+        try:
+            if _symproc is None or _symproc.poll() is not None:
+                _symproc = subprocess.Popen(["/usr/bin/llvm-symbolizer-14", "--inlines", "--functions=linkage",
+                                             "--output-style=LLVM"], stdin=subprocess.PIPE, stdout=subprocess.PIPE,
+                                            stderr=subprocess.DEVNULL, text=True, bufsize=1)
+            _symproc.stdin.write('"%s" %s\n' % (obj, off))
+            _symproc.stdin.flush()
+            lines = []
+            while True:
+                l = _symproc.stdout.readline()
+                if l == "":
+                    raise OSError("symbolizer died")
+                l = l.strip()
+                if not l:
+                    break
+                lines.append(l)
+            fr = []
+            for j in range(0, len(lines) - 1, 2):
+                fr.append((lines[j], lines[j + 1].rsplit(":", 2)[0]))
+            return fr or [("??", "??")]
+        except (OSError, ValueError):
+            _symproc = None
+    return [("??", "??")]
+
+
 def _symbolize(obj, offs):
     """-> {off: [(function, file), ...]} innermost (inlined) first."""
-    need = [o for o in offs if (obj, o) not in _sym_cache]
-    if need:
-        try:
-            p = subprocess.run(["/usr/bin/llvm-symbolizer-14", "--obj=" + obj, "--inlines", "--functions=linkage",
-                                "--output-style=LLVM"] + need, stdout=subprocess.PIPE, stderr=subprocess.DEVNULL,
-                               text=True, timeout=120)
-            blocks = p.stdout.split("\n\n")
-        except (OSError, subprocess.SubprocessError):
-            blocks = []
-        for i, o in enumerate(need):
-            fr = []
-            if i < len(blocks):
-                lines = [l for l in blocks[i].splitlines() if l.strip()]
-                for j in range(0, len(lines) - 1, 2):
-                    fr.append((lines[j].strip(), lines[j + 1].strip().rsplit(":", 2)[0]))
-            _sym_cache[(obj, o)] = fr or [("??", "??")]
+    for o in offs:
+        if (obj, o) not in _sym_cache:
+            _sym_cache[(obj, o)] = _sym_query(obj, o)
     return {o: _sym_cache[(obj, o)] for o in offs}
 
 
@@ -205,7 +224,10 @@ _CRASH_MAGIC = b"\xff\xfeCRASH"
 _CASE_END = re.compile(rb"\nVERIF-CASE-END (\d+) status=(\d+)\n")
 
 
-def run_cases(exe, cases):
+HANGS_BEFORE_SHORT_ALARM = 8
+
+
+def run_cases(exe, cases, alarm_ms=None):
     """Like common.run_cases but through the driver's --fork mode: one driver
     process per chunk, one fork per sanitizer abort.  Falls back to the plain
     protocol for whatever the fork server did not answer."""
@@ -213,8 +235,11 @@ def run_cases(exe, cases):
         return []
     data = b"".join(common.pack_case(c) for c in cases)
     try:
+        env = common.run_env(ENV)
+        if alarm_ms:
+            env["C13_ALARM_MS"] = str(alarm_ms)
         p = subprocess.run([exe, "--fork"], input=data, stdout=subprocess.PIPE, stderr=subprocess.PIPE,
-                           env=common.run_env(ENV), timeout=3600)
+                           env=env, timeout=3600)
         out, err = p.stdout, p.stderr
     except subprocess.TimeoutExpired:
         out, err = b"", b""
@@ -229,7 +254,7 @@ def run_cases(exe, cases):
         if o[:7] == _CRASH_MAGIC and len(o) == 8:
             rc = o[7]
             text = reports.get(i, b"").decode("utf-8", "replace")
-            res.append(Crash(common.classify_crash(rc, text), text[-6000:], rc))
+            res.append(Crash(common.classify_crash(rc, text), text[:8000], rc))
         else:
             res.append(o)
     if len(res) < len(cases):
@@ -275,10 +300,14 @@ def evaluate(part, vname, exe, label, kind, f, payload, r, widx, rerun_hang=True
     part["evaluations"] += 1
     part_count(part, "cases." + label)
     if isinstance(r, Crash):
-        if r.kind == "hang" and rerun_hang:
+        if r.kind == "hang" and rerun_hang and ("hang:" + label) not in part["_hang_confirmed"]:
             r2 = run_cases(exe, [payload])[0]
+            if isinstance(r2, Crash) and r2.kind == "hang":
+                part["_hang_confirmed"].add("hang:" + label)
             if not (isinstance(r2, Crash) and r2.kind == "hang"):
                 part["observations"]["hang-not-reproduced:" + label] = part["observations"].get("hang-not-reproduced:" + label, 0) + 1
+                part["evaluations"] -= 1
+                part_count(part, "cases." + label, -1)
                 return evaluate(part, vname, exe, label, kind, f, payload, r2, widx, False)
         if r.kind == "exit":
             part["inconclusive"].append("driver exited rc=%s on %s/%s: %s" % (r.returncode, label, kind, (r.report or "")[-200:]))
@@ -310,8 +339,15 @@ def run_chunk(part, builds, cases, widx):
     payloads = [gen.pack(label, f) for label, _k, f in cases]
     part_count(part, "packets", len(cases))
     for vname, exe in builds:
-        res = run_cases(exe, payloads)
+        # a hang-type defect costs a CPU second per case: once this worker has confirmed enough
+        # hangs at that budget, later chunks use a 100 ms alarm (keys are already established)
+        short = part["_hangs"] >= HANGS_BEFORE_SHORT_ALARM
+        res = run_cases(exe, payloads, alarm_ms=100 if short else None)
         for (label, kind, f), payload, r in zip(cases, payloads, res):
+            if isinstance(r, Crash) and r.kind == "hang":
+                part["_hangs"] += 1
+                if short and ("hang:" + label) not in part["_hang_confirmed"]:
+                    r = run_cases(exe, [payload])[0]  # unseen hang key: judge it at the full budget
             out = evaluate(part, vname, exe, label, kind, f, payload, r, widx)
             part["classes"].add((label, kind, out))
             if widx == 0 and len(part["samples"]) < 12 and label not in part["_sampled"] and kind not in ("valid", "trunc"):
@@ -325,7 +361,14 @@ def _new_part():
     part["best"] = {}
     part["modes"] = {}
     part["_sampled"] = set()
+    part["_hang_confirmed"] = set()
+    part["_hangs"] = 0
     return part
+
+
+def _strip(part):
+    for k in ("_sampled", "_hang_confirmed", "_hangs"):
+        part.pop(k, None)
 
 
 def _worker(job):
@@ -347,7 +390,7 @@ def _worker(job):
         first = False
     if buf:
         run_chunk(part, builds, buf, widx)
-    del part["_sampled"]
+    _strip(part)
     return part
 
 
@@ -425,7 +468,7 @@ def _fuzz_job(job):
     except common.BuildError as e:
         part["counters"]["fuzz.%s.not_selectable" % gname] = 1
         part["inconclusive"].append("libFuzzer harness does not build: %s" % e)
-        del part["_sampled"]
+        _strip(part)
         return part
     base = os.path.join(common.BUILD_DIR, "c13_fuzz", "seed%d" % common.seed(), gname)
     shutil.rmtree(base, ignore_errors=True)
@@ -470,7 +513,7 @@ def _fuzz_job(job):
     for i in range(0, len(inputs), CHUNK):
         run_chunk(part, builds, inputs[i:i + CHUNK], 100 + g)
     shutil.rmtree(corpus, ignore_errors=True)
-    del part["_sampled"]
+    _strip(part)
     return part
 
 
@@ -482,7 +525,7 @@ def run(tier):
         "DNS/RADIUS/DHCPv4/HTTP/SDP/SAP/RTP/MPEG-TS messages, every single-field mutation of each (truncation at "
         "every byte, length fields remaining+-1/0/max, compression pointers self/forward/header/mutual, counts != "
         "content, delimiter as last byte, numeric extremes), random strings and byte flips; each case runs in an "
-        "exact-size heap block under ASan+UBSan with a 5 s CPU alarm and driver-side span checks of every "
+        "exact-size heap block under ASan+UBSan with a 1 s CPU-time alarm and driver-side span checks of every "
         "out-parameter. A behaviour class is the distinct triple (parser/mode, mutation kind, outcome) where "
         "outcome = accepted-validator mask + first return codes, or the violation key; valid and mutated, accepted "
         "and rejected packets are all non-trivial inputs to the parser they target.")
